@@ -30,7 +30,7 @@ CHECKS = {
          "Totality and error-object invariants checked on every call; recursion depth measured through the Trace option on flat and nested input families.",
          "Trusted: Parser.Lex as the source of the token at an error position; Trace does not change results (C15). User-code examples only get the panic-free/AST-nil rules.",
          "DESIGN.md 3.4, 4 C06"),
- "C07": ("panic monitor, progress bound and EOF-idempotence monitor over hostile generated rule maps, one Next call at a time",
+ "C07": ("panic monitor, progress bound and EOF-idempotence monitor over hostile generated rule maps and over Go lexers emitted and compiled at check time, one Next call at a time; non-termination of a generated Next by model prediction plus side run",
          "Totality/progress monitors on every Next call incl. calls after EOF and after an error.",
          "Trusted: process watchdog + isolated re-run for non-termination of a single Next.",
          "DESIGN.md 4 C07"),
